@@ -23,6 +23,8 @@ structure Origin where
   /-- the origin honours If-None-Match: 304 when it names the current ETag (`cl0`: with Content-Length: 0) -/
   cond : Bool := false
   cl0 : Bool := false
+  /-- Cache-Control of that 304 when it differs from the 200's -/
+  cc304 : Bytes := []
   deriving Repr
 
 inductive Op where
@@ -52,8 +54,9 @@ def pOp : P Op := do
     let re ← pInt
     let cond ← pBool
     let cl0 ← pBool
+    let cc304 ← pBytes
     pure (.origin { path := p, status := st, headers := hs, body := b, chunked := ch,
-                    readErrAt := if re < 0 then none else some re.toNat, cond := cond, cl0 := cl0 })
+                    readErrAt := if re < 0 then none else some re.toNat, cond := cond, cl0 := cl0, cc304 := cc304 })
   else if k = "R" ∨ k = "A" then
     let m ← pBytes
     let p ← pBytes
@@ -97,6 +100,8 @@ structure Fetch where
   method : Bytes
   /-- the origin answered this fetch 304 (revalidation of the stored entry) -/
   via304 : Bool := false
+  /-- … and that 304 carried a directive that forbids storing / sharing -/
+  forbid304 : Bool := false
   deriving Repr
 
 def inGate (s : Nat) : Bool := s == 200 || Spec.redirectStatuses.contains s || (400 ≤ s && s ≤ 404)
@@ -145,8 +150,14 @@ def judge (force : Nat) (st : St) (method path : Bytes) (hs : List (Bytes × Byt
     | some c, n + 1 =>
       let _ := n
       let etag0 := (valuesCI c.headers b!"etag").headD []
-      { st with fetches := st.fetches ++ [{ key := key, origin := c, time := st.now, reqAuth := reqAuth, reqOrigin := reqOrigin, method := method,
-                                            via304 := c.cond && etag0 ≠ [] && o.contactINM.any (· == etag0) }] }
+      let is304 := c.cond && etag0 ≠ [] && o.contactINM.any (· == etag0)
+      -- "a 304 … updates its headers while keeping the body": the entry's Cache-Control is the 304's from now on
+      let cEff : Origin := if is304 ∧ c.cc304 ≠ [] then
+          { c with headers := c.headers.filter (fun kv => toLower kv.1 != b!"cache-control") ++ [(b!"Cache-Control", c.cc304)] } else c
+      { st with fetches := st.fetches ++ [{ key := key, origin := cEff, time := st.now, reqAuth := reqAuth, reqOrigin := reqOrigin, method := method,
+                                            via304 := c.cond && etag0 ≠ [] && o.contactINM.any (· == etag0),
+                                            forbid304 := c.cond && etag0 ≠ [] && o.contactINM.any (· == etag0) && c.cc304 ≠ [] &&
+                                              Spec.C10.carriesAny (hdrOf [(b!"Cache-Control", c.cc304)]) }] }
     | _, _ => st
   -- which origin answer does the delivered body belong to?
   let src? : Option Origin :=
@@ -194,7 +205,9 @@ def judge (force : Nat) (st : St) (method path : Bytes) (hs : List (Bytes × Byt
       -- storage gate and NO body; the revalidating writer has no file of its own, WrittenFile re-opens the OLD
       -- entry and its bytes go out under the new status line (when the new answer declares no length)
       let c09eFill := !inGate c.status && c.body == [] && o.body ≠ [] && src?.isSome
-      add st1 (c05bad ++ c09bad) ((if c05a then ["C05-a"] else []) ++ (if c09eFill then ["C09-e"] else []))
+      -- finding C09-b seen from here: a 304 whose headers forbid caching is handed on as it is (no body, no validator restored)
+      let c09b := got304 && c.cc304 ≠ [] && Spec.C10.carriesAny (hdrOf [(b!"Cache-Control", c.cc304)])
+      add st1 (c05bad ++ c09bad) ((if c05a then ["C05-a"] else []) ++ (if c09eFill then ["C09-e"] else []) ++ (if c09b then ["C09-b"] else []))
         (if mirrors then (if got304 then "fill:mirror-after-304" else "fill:mirror") else if staleIfError then "fill:stale-if-error" else if conditional then "fill:conditional" else "fill:other")
     else
       -- served without origin contact
@@ -212,8 +225,10 @@ def judge (force : Nat) (st : St) (method path : Bytes) (hs : List (Bytes × Byt
                    (if after304 then ["bad:C09:stored-body-lost-after-a-304-revalidation"] else [])) [] "hit:unknown-body"
       | some s =>
         -- the fetches that could have filled this entry
-        let fills := st.fetches.filter fun f => f.origin.body == s.body && f.origin.path == path
+        let fills := st.fetches.filter fun f => f.origin.body == s.body && f.origin.path == path && !f.forbid304
         let okFill := fills.any cacheableExchange
+        -- the stored response as the latest fill (or 304 revalidation) left it
+        let s := match fills.getLast? with | some f => f.origin | none => s
         let c10bad := if okFill then [] else ["bad:C10:uncacheable-response-served-to-a-later-request"]
         let c10cls := if Spec.C10.inClass_C10_b (hdrOf s.headers) then ["C10-b"] else []
         let c05bad := if o.framing == "complete" ∧ o.status == s.status then [] else ["bad:C05:hit-status-or-framing-wrong"]
@@ -223,6 +238,9 @@ def judge (force : Nat) (st : St) (method path : Bytes) (hs : List (Bytes × Byt
         let tFill := (fills.map (·.time)).foldl max 0
         let stored := Spec.C08.storedOf (hdrOf (if 400 ≤ s.status ∧ s.status ≤ 404 then [(b!"Cache-Control", Spec.cacheable4xxCacheControl)] else s.headers)) tFill 0
         let c08bad := if Spec.C08.isFresh stored st.now force then [] else ["bad:C08:served-from-cache-although-not-fresh"]
+        -- C10: the latest answer of the origin for this key was a 304 that forbids storing: no hit afterwards
+        let forbidden := match (st.fetches.filter (·.key == key)).getLast? with | some f => f.forbid304 | none => false
+        let c10bad := c10bad ++ (if forbidden then ["bad:C10:served-from-the-cache-after-a-304-that-forbids-storing"] else [])
         -- finding C09-e seen from here: a revalidation of this entry was answered with a status outside the
         -- storage gate and WITHOUT a body; Close re-published the old file with Revalidated = now
         let c09e := st.fetches.any fun f => f.key == key && f.origin.path == path && f.time ≥ tFill && !inGate f.origin.status &&
@@ -240,7 +258,7 @@ def converse (force : Nat) (st : St) (method path : Bytes) (hs : List (Bytes × 
   | none => []
   | some f =>
     let stored := Spec.C08.storedOf (hdrOf (if 400 ≤ f.origin.status ∧ f.origin.status ≤ 404 then [(b!"Cache-Control", Spec.cacheable4xxCacheControl)] else f.origin.headers)) f.time 0
-    let storable := cacheableExchange f && !f.reqOrigin && inGate f.origin.status && f.origin.readErrAt.isNone &&
+    let storable := cacheableExchange f && !f.forbid304 && !f.reqOrigin && inGate f.origin.status && f.origin.readErrAt.isNone &&
       (f.origin.body ≠ [] || f.method == b!"HEAD" || f.origin.status ≠ 200) &&
       Spec.C07.goodHeader (hdrOf f.origin.headers) &&
       !Spec.C10.inClass_C10_b (hdrOf f.origin.headers)
@@ -283,6 +301,6 @@ def hSysC : Handler := fun impl => do
   let label := "+".intercalate (st.labels.eraseDups.take 4)
   return { model := " ".intercalate impl, oracle := oracle, cls := cls, label := if label = "" then "-" else label }
 
-def handlers : List (String × Handler) := [ ("sysc", hSysC), ("kf.C05-a", hSysC), ("kf.C09-e.sysc", hSysC) ]
+def handlers : List (String × Handler) := [ ("sysc", hSysC), ("kf.C05-a", hSysC), ("kf.C09-e.sysc", hSysC), ("kf.C09-b.sysc", hSysC) ]
 
 end H.SysC
